@@ -42,6 +42,9 @@ func (m *Machine) constValue(c *ssa.Const) Value {
 func (m *Machine) unop(instr *ssa.UnOp, x Value) Value {
 	switch instr.Op {
 	case token.ARROW:
+		if m.schedOn() {
+			return m.schedRecv(m.cur.fr, x.(*Chan), instr.CommaOk, instr.Type())
+		}
 		return m.chanRecv(x.(*Chan), instr.CommaOk, instr.Type())
 	case token.MUL:
 		return m.load(x.(Ptr))
